@@ -693,7 +693,7 @@ func TestWorker(t *testing.T) {
 				plan.Config = encodeCfg(genConfig(rng))
 			}
 			res := exec(t, plan, rng, os.Getenv("VERIF_P_VERBOSE") != "")
-			if os.Getenv("VERIF_P_VERIFY_REPLAY") != "" {
+			if os.Getenv("VERIF_P_VERIFY_REPLAY") != "" && !stuckExit {
 				b, _ := json.Marshal(plan)
 				var p2 k.Plan
 				_ = json.Unmarshal(b, &p2)
@@ -705,6 +705,10 @@ func TestWorker(t *testing.T) {
 				res.Plan = plan
 			}
 			_ = enc.Encode(&workerLine{Type: "run", Run: int(run), Result: res})
+			if stuckExit {
+				out.Flush()
+				os.Exit(3) // the orchestrator starts a new worker after this run
+			}
 		}
 		_ = enc.Encode(&workerLine{Type: "done"})
 	case "exec", "replay":
@@ -722,5 +726,9 @@ func TestWorker(t *testing.T) {
 		}
 		res := exec(t, &plan, nil, mode == "replay" && os.Getenv("VERIF_P_VERBOSE") != "")
 		_ = enc.Encode(res)
+		if stuckExit {
+			out.Flush()
+			os.Exit(0)
+		}
 	}
 }
